@@ -164,8 +164,9 @@ class Stmt(object):
 
 
 class Where(object):
-    """op: 'and'|'or'|'not'|'cmp'|'isnull'|'notnull'|'in'|'notin'
-    cmp: col, cmpop, value (Atom)
+    """op: 'and'|'or'|'not'|'cmp'|'isnull'|'notnull'|'in'|'notin'|'subcmp'
+    cmp: col, cmpop, value (Atom; kind 'subq' = a scalar subquery)
+    subcmp: sub (Stmt) cmpop value -- a scalar subquery on the left
     in: col, sub (Stmt)
     """
 
@@ -185,6 +186,8 @@ class Where(object):
             return "NOT " + self.args[0].render()
         if self.op == "cmp":
             return "%s%s%s" % (self.col, self.cmpop, self.value.render())
+        if self.op == "subcmp":
+            return "(%s)%s%s" % (self.sub.normalized(), self.cmpop, self.value.render())
         if self.op == "isnull":
             return "%s IS NULL" % self.col
         if self.op == "notnull":
@@ -234,6 +237,8 @@ class Atom(object):
             return "?"
         if self.kind == "null":
             return "NULL"
+        if self.kind == "subq":
+            return "(%s)" % self.value.normalized()
         return str(self.value)
 
     def __repr__(self):
@@ -318,6 +323,13 @@ class _P(object):
             self.i += 2
             n = self.toks[self.i - 1].text
             return Atom("lit", -(float(n) if "." in n else int(n)))
+        if t.kind == "punct" and t.text == "(" and self.peek(1).kind == "kw" and \
+                self.peek(1).text == "SELECT":
+            # a scalar subquery used as a value
+            self.i += 1
+            sub = self.select()
+            self.expect_punct(")")
+            return Atom("subq", sub)
         if t.kind in ("ident", "kw") and self.peek(1).kind == "punct" and \
                 self.peek(1).text == "(" and t.text.upper() not in ("VALUES", "IN", "SELECT"):
             # a function / CAST expression: a computed value
@@ -354,6 +366,17 @@ class _P(object):
         return self.pred()
 
     def pred(self):
+        if self.at_punct("(") and self.peek(1).kind == "kw" and \
+                self.peek(1).text == "SELECT":
+            # (SELECT ...) <op> value: a scalar subquery compared with a value
+            self.i += 1
+            sub = self.select()
+            self.expect_punct(")")
+            t = self.peek()
+            if t.kind != "op":
+                raise SqlUnparsed("unsupported predicate at %r in %r" % (t, self.text))
+            self.i += 1
+            return Where("subcmp", sub=sub, cmpop=t.text, value=self.atom())
         if self.at_punct("("):
             self.i += 1
             w = self.or_expr()
